@@ -435,7 +435,10 @@ void vyukov_hash_map<Key, Value, Policies...>::erase(iterator& pos) {
     // the item we are currently looking at is an extension item
     auto next = pos.extension->next.load(std::memory_order_relaxed);
     pos.prev->store(next, std::memory_order_relaxed);
-    auto new_state = pos.current_bucket_state.locked().new_version();
+    // the iterator has to remember the new version - otherwise the old version would be restored when
+    // the bucket gets unlocked and concurrent readers could not recognize that an item has been removed.
+    pos.current_bucket_state = pos.current_bucket_state.new_version();
+    auto new_state = pos.current_bucket_state.locked();
     // (15) - this release-store synchronizes-with the acquire-load (23)
     pos.current_bucket->state.store(new_state, std::memory_order_release);
 
@@ -476,6 +479,8 @@ void vyukov_hash_map<Key, Value, Policies...>::erase(iterator& pos) {
     // (19) - this release-store synchronizes-with the acquire-load (23)
     pos.current_bucket->state.store(locked_state.new_version(), std::memory_order_release);
     assert(pos.current_bucket->state.load().is_locked());
+    // remember the new version (see above)
+    pos.current_bucket_state = locked_state.new_version().clear_lock();
     free_extension_item(extension);
   } else {
     auto max_index = pos.current_bucket_state.item_count() - 1;
